@@ -2791,8 +2791,16 @@ class Cond(Generic[X, R], GFI[X, R]):
         else:
             # the values that were visible under the old condition
             merged_discard, _ = self.callee.merge(discard, discard_, tr.check)
+        # Each branch's weight is relative to that branch's own old trace. If the
+        # condition flips, the old visible trace belongs to the other branch: add
+        # its score and remove the old score of the newly visible branch, so that a
+        # move which switches a Cond whose own choices are observed (mixture
+        # indicator) gets log p(obs; new branch) - log p(obs; old branch).
+        old_score_of_new_branch = jnp.where(
+            check, tr.trs[0].get_score(), tr.trs[1].get_score()
+        )
         return (
             CondTr(self, check, [new_tr, new_tr_]),
-            jnp.where(check, w, w_),
+            jnp.where(check, w, w_) + tr.get_score() - old_score_of_new_branch,
             merged_discard,
         )
